@@ -299,6 +299,8 @@ def eval_case(kind, data):
         elif "single source node" not in str(out) and "out of range" not in str(out) and "HarnessError" not in str(out):
             viol(res, f"C18|second-generate-raises|{name}|{str(out).split('(')[0]}", f"{text}: second generate() on the same object raises {out}", {"text": text, "script": sc})
     res["capped"] = bool(explore.capped)
+    if res["capped"]:
+        res["capped_note"] = f"every execution with <= {explore.completed_bound} deviations from the default answers covered"
     res["traces"] = n
     res["evals"] = n
     res["nontrivial"] = [name, n]
